@@ -5,6 +5,7 @@
 package timed
 
 import (
+	"fmt"
 	"os"
 	"strconv"
 	"testing"
@@ -40,4 +41,12 @@ func component(t *testing.T, f func(h *H)) {
 	if h.violations > 0 && outDir == "" {
 		t.Errorf("%d violations (see %s)", h.violations, dir)
 	}
+}
+
+// progress records the scenario about to run (so that a hang or crash can be attributed).
+func progress(format string, a ...any) {
+	if outDir == "" {
+		return
+	}
+	os.WriteFile(outDir+"/progress.txt", []byte(fmt.Sprintf(format, a...)+"\n"), 0o644)
 }
